@@ -26,7 +26,7 @@ structure St where
 
 def step (st : St) (l : Line) : St × Verdict :=
   match l.op, l.args with
-  | "listener", [uris, hdrs, ua, resp, redir] =>
+  | "listener", uris :: hdrs :: ua :: resp :: redir :: _viaOperator =>
     match (if uris = "e" then some [[]] else hexList uris), hexList hdrs, hexStr ua, hexList resp with
     | some u, some h, some a, some r =>
       if l.impl == ["NOLISTEN"] then (st, .bad "listener did not come up")
